@@ -135,7 +135,7 @@ func c13streamChild(raw json.RawMessage, scratch string) {
 			g, _ := stripPings(got)
 			return g
 		}
-		complete := waitUntil(8*time.Second, func() bool { return len(snapshot()) >= len(want) })
+		complete := waitUntil(30*time.Second, func() bool { return len(snapshot()) >= len(want) })
 		time.Sleep(600 * time.Millisecond) // one more flush period: anything wrongly forwarded shows up
 		got := snapshot()
 		rmu.Lock()
